@@ -40,6 +40,9 @@ fn long_game(root: &Pos, rng: &mut Rng, plies: usize, cap: u32) -> Vec<Mv> {
 fn c16_game(ctx: &Ctx, l: &mut Local, root: &Pos, path: &[Mv], seed: u64, tagname: &str) {
     let mut rng = Rng::new(seed);
     let mut b = to_engine(root);
+    // every fourth game leaves the board's turn flag alone for the whole game: making a move must not depend on it
+    let never_toggle = seed % 4 == 3;
+    if never_toggle { l.inc("games_played_without_ever_toggling_the_turn_flag"); }
     let mut g = MoveGenerator::new();
     let mut p = root.clone(); p.halfmove = 0;
     let base_counter = b.fullmove_clock() as u64;
@@ -57,7 +60,7 @@ fn c16_game(ctx: &Ctx, l: &mut Local, root: &Pos, path: &[Mv], seed: u64, tagnam
             Ok(Err(_)) => { l.inc("apply_failed_(C03_business)"); return; }
             Ok(Ok(())) => {}
         }
-        b.toggle_turn();
+        if !never_toggle { b.toggle_turn(); }
         stack.push((p.clone(), em));
         p = p.make(&m); made += 1; i += 1;
         l.inc("plies_tracked");
@@ -93,7 +96,7 @@ fn c16_game(ctx: &Ctx, l: &mut Local, root: &Pos, path: &[Mv], seed: u64, tagnam
             let k = 1 + rng.below(3);
             for _ in 0..k {
                 let (prev, em) = stack.pop().unwrap();
-                b.toggle_turn();
+                if !never_toggle { b.toggle_turn(); }
                 if let Err(msg) = par::guarded(|| em.undo(&mut b)) { ctx.violation(&format!("c16:counter-overflow:{}", par::last_panic_location()), &format!("undo panicked: {}", msg), replay(i)); return; }
                 p = prev; made -= 1; i -= 1;
                 l.inc("undos_tracked");
@@ -106,7 +109,7 @@ fn c16_game(ctx: &Ctx, l: &mut Local, root: &Pos, path: &[Mv], seed: u64, tagnam
     }
     // take the whole game back, clocks compared at every level
     while let Some((prev, em)) = stack.pop() {
-        b.toggle_turn();
+        if !never_toggle { b.toggle_turn(); }
         if let Err(msg) = par::guarded(|| em.undo(&mut b)) { ctx.violation(&format!("c16:counter-overflow:{}", par::last_panic_location()), &format!("undoing ply {} of {} panicked: {}", i, tagname, msg), replay(i)); return; }
         p = prev; made -= 1; i -= 1;
         l.inc("undos_tracked");
